@@ -1659,9 +1659,14 @@ class UndefinedReferenceError(NMFUError):
         self.source = source
 
     def __str__(self):
+        if isinstance(self.source, lark.Token):
+            name = self.source.value
+        else:
+            # the reference was reported on an enclosing tree (e.g. `identifier_const`)
+            name = " ".join(token.value for token in self.source.scan_values(lambda v: isinstance(v, lark.Token)))
         if self.objtype is None:
-            return f"Undefined reference to {self.source.value}:\n" + self._get_message(show_potential_reasons=False)
-        return f"Undefined reference to {self.objtype} {self.source.value}:\n" + self._get_message(show_potential_reasons=False)
+            return f"Undefined reference to {name}:\n" + self._get_message(show_potential_reasons=False)
+        return f"Undefined reference to {self.objtype} {name}:\n" + self._get_message(show_potential_reasons=False)
 
 class DuplicateDefinitionError(NMFUError):
     def __init__(self, objtype, source, name):
